@@ -320,6 +320,7 @@ pub fn execute_mode(plan: &SPlan, free: bool) -> SRunResult {
             sched.start(me);
             let mut recs = Vec::new();
             let mut lean_sum = (0u64, 0u64);
+            let mut kinds: Vec<(String, u32)> = Vec::new();
             for rep in 0..repeat {
                 for (i, op) in ops.iter().enumerate() {
                     sched.seam(me, false);
@@ -328,7 +329,21 @@ pub fn execute_mode(plan: &SPlan, free: bool) -> SRunResult {
                         // a soak run keeps counts and violations only
                         lean_sum.0 += rec.judged;
                         lean_sum.1 += 1;
-                        if !rec.violations.is_empty() && recs.len() < 8 {
+                        // ... of every kind the first few
+                        let mut keep = false;
+                        for v in &rec.violations {
+                            match kinds.iter_mut().find(|k: &&mut (String, u32)| k.0 == v.kind) {
+                                Some(k) => {
+                                    k.1 += 1;
+                                    keep |= k.1 <= 4;
+                                }
+                                None => {
+                                    kinds.push((v.kind.clone(), 1));
+                                    keep = true;
+                                }
+                            }
+                        }
+                        if keep {
                             recs.push(rec);
                         }
                     } else {
